@@ -1682,7 +1682,7 @@ def run_mixed_op(mon, i, op):
 # ---------------------------------------------------------------------------------------------------
 # C07
 
-ARITH = {"+", "-", "*", "/"}
+ARITH = {"+", "-", "*", "/", "max compared with", "min compared with"}
 
 
 class C07(BaseMonitor):
@@ -1741,6 +1741,17 @@ class C07(BaseMonitor):
         if lq and rq:
             val = {"+": lambda: a + b, "-": lambda: a - b, "*": lambda: a * b, "/": lambda: a / b}[op]()
             return C.norm(ExplainableQuantity(val, "expected"))
+        if lh and rh and op in ("max compared with", "min compared with"):
+            # the other operation the explanations display between two hourly series: hour by hour, on physical values
+            if not a.index.equals(b.index):
+                return None
+            import numpy as np
+            x = np.asarray(a["value"].values._data, dtype=float) * C._factor(left.unit)[0]
+            y = np.asarray(b["value"].values._data, dtype=float) * C._factor(right.unit)[0]
+            if C._factor(left.unit)[1] != C._factor(right.unit)[1]:
+                return None
+            got = C.norm(left)
+            return (got[0], got[1], got[2], (np.maximum if op.startswith("max") else np.minimum)(x, y), got[4])
         if lh and rh:
             if op == "+":
                 val = a.add(b, fill_value=0 * left.unit)
